@@ -328,6 +328,8 @@ def coll_suite(tier, cfgs, extra="", fams=("member",), need=()):
                 ("array", "log2", "constant", "--maxns 16 --bs 192 --sizes 8 --arrays 3x5,19x5 --L 3 --B 2", ("reserved_from_arena", "grew")),
                 ("node", "log2", "fixed", "--maxns 16 --bs 224 --sizes 16 --arrays 2x16,1x16 --L 3 --B 2 --max_states 300000", ("reserved_from_arena",)),  # 1x16: array of ONE element
                 ("small", "identity", "constant", "--maxns 4 --bs 2000 --sizes 1,4 --L 3 --B 2 --arena 8192", ("reserved_from_arena",)),
+                # later blocks at LOWER addresses than earlier ones
+                ("array", "log2", "constant", "--maxns 16 --bs 192 --sizes 8,16 --arrays 3x8 --L 3 --B 3 --place desc", ("grew",)),
             ]
             if not q:
                 shapes += [
@@ -498,6 +500,8 @@ def check_C04(prop, tier, only):
     jobs = pool_suite(tier, c, extra="--tries 1", fams=("member", "traits")) + coll_suite(tier, c, extra="--tries 1", fams=("member", "traits"))
     # composable release (try_deallocate_*): a node the pool owns must go back to its list (sizes include max_node_size itself)
     jobs += pool_suite(tier, c[:1], extra="--tries 1", fams=("compose",)) + coll_suite(tier, c[:1], extra="--tries 1", fams=("compose",))
+    # capacity must survive moves as well (the free list and its counter travel with the object)
+    jobs += pool_suite(tier, c[:1], extra="--moves 2") + coll_suite(tier, c[:1], extra="--moves 2")
     for j in jobs:
         j["own"] = ["M-noreport"]  # a valid release that the pool rejects as invalid is memory that does not become available again
     return run_explore_check(prop, tier, jobs, only, note=NOTE_BFS +
@@ -598,7 +602,9 @@ def check_C18_explore_jobs(tier):
     c = cfgs_for(tier)
     return (pool_suite(tier, c, extra="--tries 1", fams=("member", "traits")) + coll_suite(tier, c, fams=("member", "traits"))
             + stack_suite(tier, c, extra="--tries 1") + iter_suite(tier, c[:2]) + arena_suite(tier, c[:1])
-            + growfail_jobs(tier, c[:1] if tier == "quick" else c, twin=0))
+            + growfail_jobs(tier, c[:1] if tier == "quick" else c, twin=0)
+            # the figures of a moved / swapped object describe the memory it took over
+            + pool_suite(tier, c[:1], extra="--moves 2") + stack_suite(tier, c[:1], extra="--moves 2") + coll_suite(tier, c[:1], extra="--moves 2"))
 
 
 def check_C16(prop, tier, only):
